@@ -174,7 +174,11 @@ def real_state(w):
             labels[id(o)] = (len(labels), type(o).__name__)
         return labels[id(o)]
 
+    idmap = {id(o): o for o in w.keep}
+
     def cv(x):
+        if isinstance(x, int) and not isinstance(x, bool) and x in idmap:
+            return ("id-of",) + lab(idmap[x])       # an id() used as a key / value: named like the object
         if isinstance(x, (int, float, str, bytes, bool, type(None))):
             return (type(x).__name__, x)
         if isinstance(x, type):
